@@ -152,3 +152,73 @@ func ZZ_C05_A2_send_debits_only_the_signer() {
 		}
 	}
 }
+
+// C05 / A2 for the other money-moving messages: the real GetAuthorizedSignersFor decides who may
+// sign a message, the real handler decides whose funds move. For an arbitrary message of each kind
+// over the escrow world (three accounts, one open sell order owned by account 0, pools): every
+// account whose balance DEcreases is one of the message's authorized signers, and messages that
+// touch an existing order (edit / delete) are authorized for that order's seller only - so nobody is
+// debited, and nobody's order is changed, by a transaction their keys did not sign.
+func zzAuthorizedIdx(sm *StateMachine, msg lib.MessageI) (idx [3]bool, ok bool) {
+	who, err := sm.GetAuthorizedSignersFor(msg)
+	if err != nil {
+		return idx, false
+	}
+	for _, w := range who {
+		for i := 0; i < 3; i++ {
+			if bytes.Equal(w, zzAddr(i)) {
+				idx[i] = true
+			}
+		}
+	}
+	return idx, true
+}
+
+//zz:harness mode=int unwind=60 maxpaths=60000 timebudget=1200 replay=model
+//zz:reach A2.handlers.executed
+func ZZ_C05_A2_handlers_debit_only_authorized() {
+	sm, _ := zzFSM(10)
+	zzEscrowWorld(sm)
+	a, b := zzConcrete(zzInt("a"), 0, 2), zzConcrete(zzInt("b"), 0, 2)
+	id2 := append([]byte{}, zzOrderId...)
+	id2[0] = 0x01
+	var msg lib.MessageI
+	var run func() lib.ErrorI
+	touchesOrder := false
+	switch zzConcrete(zzInt("kind"), 0, 4) {
+	case 0:
+		m := &MessageSubsidy{Address: zzAddr(a), ChainId: 1, Amount: zzN64("amount"), Opcode: []byte{1}}
+		msg, run = m, func() lib.ErrorI { return sm.HandleMessageSubsidy(m) }
+	case 1:
+		m := &MessageCreateOrder{ChainId: 1, AmountForSale: zzN64("amount"), RequestedAmount: zzN64("req"),
+			SellerReceiveAddress: zzAddr(b), SellersSendAddress: zzAddr(a), OrderId: id2}
+		msg, run = m, func() lib.ErrorI { return sm.HandleMessageCreateOrder(m) }
+	case 2:
+		m := &MessageEditOrder{OrderId: zzOrderId, ChainId: 1, AmountForSale: zzN64("amount"), RequestedAmount: zzN64("req"), SellerReceiveAddress: zzAddr(b)}
+		msg, run, touchesOrder = m, func() lib.ErrorI { return sm.HandleMessageEditOrder(m) }, true
+	case 3:
+		m := &MessageDeleteOrder{OrderId: zzOrderId, ChainId: 1}
+		msg, run, touchesOrder = m, func() lib.ErrorI { return sm.HandleMessageDeleteOrder(m) }, true
+	case 4:
+		m := &MessageSend{FromAddress: zzAddr(a), ToAddress: zzAddr(b), Amount: zzN64("amount")}
+		msg, run = m, func() lib.ErrorI { return sm.HandleMessageSend(m) }
+	}
+	auth, ok := zzAuthorizedIdx(sm, msg)
+	if !ok {
+		return
+	}
+	if touchesOrder {
+		zzAssert("A2.handlers.order-messages-are-for-the-seller-only", auth[0] && !auth[1] && !auth[2])
+	}
+	before := zzBalances(sm)
+	if run() != nil {
+		return
+	}
+	zzReach("A2.handlers.executed")
+	after := zzBalances(sm)
+	for i := 0; i < 3; i++ {
+		if !auth[i] {
+			zzAssert("A2.handlers.only-authorized-signers-are-debited", after[i] >= before[i])
+		}
+	}
+}
